@@ -509,11 +509,12 @@ func (runInfo *runInfoStruct) makeCallArgs(rt reflect.Type, isRunVMFunction bool
 		}
 
 		indexSlice := 0
+		slice := runInfo.rv
 		for indexInReal < numInReal {
 			if isRunVMFunction {
-				args = append(args, reflect.ValueOf(runInfo.rv.Index(indexSlice)))
+				args = append(args, reflect.ValueOf(slice.Index(indexSlice)))
 			} else {
-				runInfo.rv, runInfo.err = convertReflectValueToType(runInfo.rv.Index(indexSlice), rt.In(indexInReal))
+				runInfo.rv, runInfo.err = convertReflectValueToType(slice.Index(indexSlice), rt.In(indexInReal))
 				if runInfo.err != nil {
 					runInfo.err = newStringError(callExpr.SubExprs[indexExpr],
 						"function wants argument type "+rt.In(indexInReal).String()+" but received type "+runInfo.rv.Type().String())
